@@ -149,6 +149,9 @@ func (m *MoovBox) GetSinf(trackID uint32) *SinfBox {
 	for _, trak := range m.Traks {
 		if trak.Tkhd.TrackID == trackID {
 			stsd := trak.Mdia.Minf.Stbl.Stsd
+			if len(stsd.Children) == 0 {
+				return nil
+			}
 			sd := stsd.Children[0] // Get first (and only)
 			switch box := sd.(type) {
 			case *VisualSampleEntryBox:
@@ -166,6 +169,9 @@ func (m *MoovBox) IsEncrypted(trackID uint32) bool {
 	for _, trak := range m.Traks {
 		if trak.Tkhd.TrackID == trackID {
 			stsd := trak.Mdia.Minf.Stbl.Stsd
+			if len(stsd.Children) == 0 {
+				return false
+			}
 			sd := stsd.Children[0] // Get first (and only)
 			switch box := sd.(type) {
 			case *VisualSampleEntryBox:
